@@ -6,6 +6,8 @@ package c08
 import (
 	"container/list"
 	"fmt"
+	"os"
+	"os/exec"
 	"reflect"
 	"regexp"
 	"sort"
@@ -24,7 +26,82 @@ import (
 	"verif/internal/ref"
 )
 
-func TestMain(m *testing.M) { ev.Main(m, "C08") }
+func TestMain(m *testing.M) {
+	if ord := os.Getenv("VERIF_C08_DECODERS"); ord != "" {
+		os.Exit(decoderChild(ord))
+	}
+	ev.Main(m, "C08")
+}
+
+// decoderChild: a fresh process that asks every table decoder for its whole domain (valid names, in the given order)
+// and prints one line per question. Order "asc" walks the domain upwards, "desc" downwards, "invalidFirst" asks
+// every decoder with names that are not pillars before walking upwards, "crossFirst" asks the hour decoders with day /
+// hour pillars that cannot occur together first.
+func decoderChild(order string) int {
+	jz := LunarUtil.JIA_ZI
+	type q struct{ fn, a, b int }
+	var qs []q
+	for a := 0; a < 60; a++ {
+		for b := 0; b < 60; b++ {
+			qs = append(qs, q{0, a, b}, q{1, a, b})
+		}
+	}
+	for _, mm := range []int{1, 2, 3, 4, 5, 6, 7, 8, 9, 10, 11, 12, -1, -2, -3, -4, -5, -6, -7, -8, -9, -10, -11, -12} {
+		for b := 0; b < 60; b++ {
+			qs = append(qs, q{2, mm, b})
+		}
+	}
+	ask := func(x q) string {
+		switch x.fn {
+		case 0:
+			return fmt.Sprintf("day %s %s yi=%v ji=%v", jz[x.a], jz[x.b], listOf(LunarUtil.GetDayYi(jz[x.a], jz[x.b])), listOf(LunarUtil.GetDayJi(jz[x.a], jz[x.b])))
+		case 1:
+			return fmt.Sprintf("time %s %s yi=%v ji=%v", jz[x.a], jz[x.b], listOf(LunarUtil.GetTimeYi(jz[x.a], jz[x.b])), listOf(LunarUtil.GetTimeJi(jz[x.a], jz[x.b])))
+		}
+		return fmt.Sprintf("shen %d %s js=%v xs=%v", x.a, jz[x.b], listOf(LunarUtil.GetDayJiShen(x.a, jz[x.b])), listOf(LunarUtil.GetDayXiongSha(x.a, jz[x.b])))
+	}
+	safe := func(f func()) {
+		defer func() { _ = recover() }()
+		f()
+	}
+	switch order {
+	case "desc":
+		for i, j := 0, len(qs)-1; i < j; i, j = i+1, j-1 {
+			qs[i], qs[j] = qs[j], qs[i]
+		}
+	case "invalidFirst":
+		for _, bad := range []string{"", "已巳", "XX", "甲"} {
+			for b := 0; b < 60; b += 7 {
+				safe(func() {
+					LunarUtil.GetDayYi(bad, jz[b])
+					LunarUtil.GetDayJi(jz[b], bad)
+					LunarUtil.GetTimeYi(bad, jz[b])
+					LunarUtil.GetTimeJi(jz[b], bad)
+				})
+				safe(func() { LunarUtil.GetDayJiShen(0, jz[b]); LunarUtil.GetDayXiongSha(13, bad) })
+			}
+		}
+	case "validFirst": // the pairs a moment can have (hour stem by five-rats from the day stem) before all the others
+		var first, rest []q
+		for _, x := range qs {
+			if x.fn == 1 && (x.a%10%5*2+x.b%12)%10 == x.b%10 {
+				first = append(first, x)
+			} else {
+				rest = append(rest, x)
+			}
+		}
+		qs = append(first, rest...)
+	}
+	out := make([]string, 0, len(qs))
+	for _, x := range qs {
+		out = append(out, ask(x))
+	}
+	sort.Strings(out)
+	for _, l := range out {
+		fmt.Println("D " + l)
+	}
+	return 0
+}
 
 // ------------------------------------------------------------------------------------------
 // vocabularies (built from the exported tables at run time)
@@ -638,6 +715,52 @@ var utilities = ev.Register(&ev.P[utilCase]{
 	Disjoint: true,
 })
 
+// the decoders answer the same whatever was asked before: whole domain, four question orders, four fresh processes
+type orderCase struct{ Orders []string }
+
+var decoderOrders = ev.Register(&ev.P[orderCase]{
+	Name: "decoders_order_independent_across_processes",
+	Rule: "the whole domain of the packed-table decoders (GetDayYi/Ji and GetTimeYi/Ji for all 60x60 name pairs — also pairs that no moment has — and GetDayJiShen/XiongSha for months ±1..12 x 60) is asked in a fresh child process, once per question order: upwards, downwards, after a round of invalid names, and with the pairs a moment can have first; oracle: every question has the same answer in all four processes (a memo filled by whoever comes first, a slot taken by a failed look-up, or an unset entry mistaken for a hit shows as a difference); one case of 4 x 8640 questions; non-trivial: always",
+	Check: func(c orderCase) error {
+		exe, err := os.Executable()
+		if err != nil {
+			ev.Infra("os.Executable: %v", err)
+			return nil
+		}
+		var ref0 []string
+		for _, o := range c.Orders {
+			cmd := exec.Command(exe)
+			cmd.Env = append(os.Environ(), "VERIF_C08_DECODERS="+o)
+			b, err := cmd.Output()
+			if err != nil {
+				ev.Infra("decoder child (%s) failed: %v", o, err)
+				return nil
+			}
+			var lines []string
+			for _, l := range strings.Split(string(b), "\n") {
+				if strings.HasPrefix(l, "D ") {
+					lines = append(lines, l[2:])
+				}
+			}
+			if len(lines) != 60*60*2+24*60 {
+				ev.Infra("decoder child (%s) printed %d answers", o, len(lines))
+				return nil
+			}
+			if ref0 == nil {
+				ref0 = lines
+				continue
+			}
+			for i := range lines {
+				if lines[i] != ref0[i] {
+					return fmt.Errorf("asked in order %q a fresh process answers %q, asked in order %q it answers %q", c.Orders[0], ref0[i], o, lines[i])
+				}
+			}
+		}
+		return nil
+	},
+	Class: func(c orderCase) ([]string, bool) { return []string{"orders"}, true },
+})
+
 // ------------------------------------------------------------------------------------------
 
 func genObj(t *rapid.T) objCase {
@@ -729,6 +852,9 @@ func TestC08(t *testing.T) {
 				kk++
 			}
 		}
+	}
+	if ev.Shard == 0 {
+		decoderOrders.Eval(orderCase{[]string{"asc", "desc", "invalidFirst", "validFirst"}})
 	}
 	utilities.Exhaustive("GetDayYi/Ji 60x60, GetTimeYi/Ji 60x60, GetDayJiShen/XiongSha 24x60, GetXun* 60, FotoUtil.GetXiu 24x30")
 	accessors.Rapid(ev.Share(ev.Pick(1600, 32000)), genObj)
